@@ -49,10 +49,7 @@ func VerifH_C04_BlockstoreHistory() {
 		carv2.StoreIdentityCIDs(m.storeID), carv2.AllowDuplicatePuts(m.allowDup), carv2.UseWholeCIDs(m.useWhole))
 	vAssert("open", err == nil)
 	ctx := context.Background()
-	L := 2
-	if vTier() == 1 {
-		L = 3
-	}
+	L := 2 // (three steps with every option configuration run for more than an hour)
 	var all []vEntry
 	for i := 0; i < L; i++ {
 		s := vValidSection("blk", 1)
